@@ -154,7 +154,8 @@ func mixHash(a, b uint64) {
 //
 //go:norace
 func yieldHook(site int) {
-	if sActive && (sCur < 0 || sCur >= maxTasks || getg() != sTaskG[sCur]) {
+	cur := sCur // read once: a foreign goroutine may be preempted between the test and the use
+	if sActive && (cur < 0 || cur >= maxTasks || getg() != sTaskG[cur]) {
 		// Called by a goroutine the simulator does not own (a finalizer, a timer callback, a goroutine
 		// started by the tree under test): it is not the task holding the token, so it must neither be
 		// scheduled nor touch any per-task state.  It runs under the Go scheduler like in production.
@@ -175,14 +176,15 @@ func yieldHook(site int) {
 		}
 		return
 	}
-	if site == -2 {
-		blockedYield(sCur, true)
-		return
-	}
-	if site == -3 {
-		// the tree under test spins in a wait loop of its own (runtime.Gosched): let somebody else run if
-		// anybody can; if nobody can, the loop is waiting for a goroutine the simulator does not own
-		blockedYield(sCur, false)
+	if site == -2 || site == -3 {
+		// -2: a rewritten Lock loop found the lock taken; -3: the tree under test spins in a wait loop of its own
+		// (runtime.Gosched).  In an operation-granular run no task is ever descheduled inside an operation, so
+		// whoever is awaited is a goroutine the simulator does not own: yield to the Go scheduler, never to a task.
+		if sGran == granOp {
+			runtime.Gosched()
+			return
+		}
+		blockedYield(cur, site == -2)
 		return
 	}
 	if site >= 0 {
@@ -194,12 +196,12 @@ func yieldHook(site int) {
 			// their goroutines reach this hook too and must not touch any per-task scheduler state)
 			return
 		}
-		sOpHash[sCur] = (sOpHash[sCur] ^ uint64(site+1)) * 0x100000001b3
+		sOpHash[cur] = (sOpHash[cur] ^ uint64(site+1)) * 0x100000001b3
 		if sGran == granFunc && site < len(siteFuncFirst) && !siteFuncFirst[site] {
 			return
 		}
 	}
-	step(sCur, site)
+	step(cur, site)
 }
 
 // blockedYield is reached from a rewritten Lock loop: the lock is held by a task
